@@ -27,6 +27,29 @@ func c12Traverse(root ast.Vertex) (*RecVisitor, *obs.Panic) {
 	return rec, p
 }
 
+// One Traverser may walk many trees: the worker keeps one long-lived traverser (with its recording visitor,
+// emptied between trees); every second parsed tree goes through it.
+var c12Long struct {
+	rec *RecVisitor
+	t   *traverser.Traverser
+	n   int
+}
+
+func c12TraverseLongLived(root ast.Vertex) (*RecVisitor, *obs.Panic) {
+	if c12Long.t == nil {
+		c12Long.rec = &RecVisitor{}
+		c12Long.t = traverser.NewTraverser(c12Long.rec)
+	}
+	c12Long.rec.Nodes, c12Long.rec.Methods = nil, nil
+	p := obs.Try(func() { c12Long.t.Traverse(root) })
+	c12Long.n++
+	out := &RecVisitor{Nodes: c12Long.rec.Nodes, Methods: c12Long.rec.Methods}
+	if p != nil {
+		c12Long.t = nil // a traverser interrupted by a panic is not used again
+	}
+	return out, p
+}
+
 // c12Compare checks the recorded sequence against the reflection pre-order.
 func c12Compare(c *core.Ctx, root ast.Vertex, w core.Witness, parsed bool) int {
 	var want []ast.Vertex
@@ -44,7 +67,14 @@ func c12Compare(c *core.Ctx, root ast.Vertex, w core.Witness, parsed bool) int {
 		want = append(want, n)
 		return true
 	})
-	rec, p := c12Traverse(root)
+	rec, p := (*RecVisitor)(nil), (*obs.Panic)(nil)
+	if parsed && len(want)%2 == 0 {
+		rec, p = c12TraverseLongLived(root)
+		w = w.With("traverser", fmt.Sprintf("one Traverser used for many trees (this is tree #%d)", c12Long.n))
+		c.Add("trees_walked_by_a_long_lived_traverser", 1)
+	} else {
+		rec, p = c12Traverse(root)
+	}
 	if p != nil {
 		c.Violation(p.Sig, "traverser panicked: "+p.Msg, w)
 		return 0
@@ -98,7 +128,7 @@ func c12Where(root, n ast.Vertex) string {
 func init() {
 	core.Register(&core.Check{
 		ID:   "C12",
-		Rule: "cases = G5 synthetic nodes: every node kind x slot subsets (all 2^k for k<=12, else single/double toggles + PRNG subsets), the Stmt slot alternately holding a nested StmtStmtList  ++  trees parsed from the shared parse workload (corpus, hostile inputs, generated programs of both families in PRNG layouts) under PRNG versions; non-trivial = a tree with at least 2 nodes was traversed; distinct by (kind, subset) / (input, version)",
+		Rule: "cases = G5 synthetic nodes: every node kind x slot subsets (all 2^k for k<=12, else single/double toggles + PRNG subsets), the Stmt slot alternately holding a nested StmtStmtList  ++  trees parsed from the shared parse workload (corpus, hostile inputs, generated programs of both families in PRNG layouts) under PRNG versions, every second one walked by a long-lived Traverser that has walked other trees before; non-trivial = a tree with at least 2 nodes was traversed; distinct by (kind, subset) / (input, version)",
 		Assumptions: []string{
 			"the reflection walk over exported ast.Vertex / []ast.Vertex fields in declaration order defines 'the tree' and slot order",
 			"source order of siblings is judged by StartPos on error-free parses only (positions of trees with errors may be partial)",
